@@ -631,16 +631,15 @@ class LiteralUnmarshaller(AbstractUnmarshaller[LiteralT], tp.Generic[LiteralT]):
         self.values = inspection.args(t, evaluate=True)
 
     def __call__(self, val: tp.Any) -> LiteralT:
+        # Try the input as given, then its text (for bytes-like inputs),
+        #   then the value which that text encodes.
         # Return the declared literal, not whatever compared equal to it (e.g., `True` for `1`).
-        for literal in self.values:
-            if literal == val:
-                return literal
-        decoded = serdes.load(val)
-        for literal in self.values:
-            if literal == decoded:
-                return literal
+        for candidate in (val, serdes.decode(val), serdes.load(val)):
+            for literal in self.values:
+                if literal == candidate:
+                    return literal
 
-        raise ValueError(f"{decoded!r} is not one of {self.values!r}")
+        raise ValueError(f"{val!r} is not one of {self.values!r}")
 
 
 UnionT = tp.TypeVar("UnionT")
